@@ -164,6 +164,83 @@ def thread_jumps(body, rounds=4):
             break
 
 
+def fold_const_switches(body, rounds=3):
+    """A switch on a local whose only definition in the whole body is a constant (typically a bool/enum parameter of
+    an inlined helper called with a literal) becomes a goto."""
+    blocks = body["blocks"]
+    for _ in range(rounds):
+        defs = {}
+        for b in blocks:
+            for st in b["stmts"]:
+                if st["k"] == "assign" and not st["lhs"]["p"]:
+                    defs.setdefault(st["lhs"]["l"], []).append(st["rv"])
+                elif st["k"] == "assign":
+                    defs.setdefault(st["lhs"]["l"], []).append(None)
+            t = b["term"]
+            if t["k"] == "call" and t.get("dest") is not None:
+                defs.setdefault(t["dest"]["l"], []).append(None)
+        changed = False
+        for b in blocks:
+            t = b["term"]
+            if t["k"] != "switch":
+                continue
+            op = t["op"]
+            val = None
+            if op["k"] == "const" and isinstance(op.get("v"), int):
+                val = op["v"]
+            elif op["k"] in ("copy", "move") and not op["pl"]["p"]:
+                l = op["pl"]["l"]
+                for _h in range(6):
+                    ds = defs.get(l, [])
+                    if len(ds) != 1 or ds[0] is None:
+                        break
+                    rv = ds[0]
+                    if rv["k"] == "use" and rv["op"]["k"] == "const" and isinstance(rv["op"].get("v"), int):
+                        val = rv["op"]["v"]
+                        break
+                    if rv["k"] == "use" and rv["op"]["k"] in ("copy", "move") and not rv["op"]["pl"]["p"]:
+                        l = rv["op"]["pl"]["l"]
+                        if l <= body["argc"] and l >= 1:
+                            break
+                        continue
+                    break
+            if val is None:
+                continue
+            tgt = t["otherwise"]
+            for v, tg in zip(t["vals"], t["tgts"]):
+                if v == val:
+                    tgt = tg
+            b["term"] = {"k": "goto", "t": tgt, "line": t.get("line", 0), "exp": False}
+            changed = True
+        if not changed:
+            break
+
+
+def prune_unreachable(body):
+    """Blocks that can no longer be reached keep no statements (their definitions must not feed merged values)."""
+    blocks = body["blocks"]
+    seen = {0}
+    work = [0]
+    while work:
+        i = work.pop()
+        t = blocks[i]["term"]
+        nxt = []
+        for k in ("t", "otherwise"):
+            if isinstance(t.get(k), int):
+                nxt.append(t[k])
+        nxt += list(t.get("tgts", []))
+        if isinstance(t.get("unwind"), int):
+            nxt.append(t["unwind"])
+        for n in nxt:
+            if n not in seen:
+                seen.add(n)
+                work.append(n)
+    for i, b in enumerate(blocks):
+        if i not in seen and (b["stmts"] or b["term"]["k"] != "unreachable"):
+            b["stmts"] = []
+            b["term"] = {"k": "unreachable", "line": b["term"].get("line", 0), "exp": False}
+
+
 class Inliner:
     def __init__(self, fb, policy, max_depth=4, combinators=True, skip_combinators=("map_err",), src=None):
         self.fb = fb
@@ -196,7 +273,9 @@ class Inliner:
                     continue  # re-examine the same block index (its terminator is now a goto) -> moves on next iteration
             i += 1
         if self.inlined:
+            fold_const_switches(body)
             thread_jumps(body)
+            prune_unreachable(body)
         rec = dict(fn.rec)
         rec["body"] = body
         rec["promoted"] = promoted
